@@ -121,7 +121,7 @@ class Monitor(object):
         gender, age, event = args[:3]
         y = self.year_of(kwargs, args, 3)
         g = gender[0].lower() if isinstance(gender, str) and gender else None
-        if g not in ('m', 'f') or isinstance(age, bool) or not isinstance(age, (int, float)):
+        if g not in ('m', 'f') or isinstance(age, bool) or not isinstance(age, (int, float, decimal.Decimal, fractions.Fraction)):
             return
         d_m = self.query(y, g, event)
         if d_m is None:
